@@ -174,6 +174,25 @@ class RepoInterp(Interp):
         return super().getattr(v, attr, s, node)
 
     def call(self, e, fname, recv, args, kws, s):
+        from .absint import Obj as _Obj
+        # to_dict() of an object built from a repository class: interpret the class's own to_dict
+        if isinstance(e.func, ast.Attribute) and e.func.attr == "to_dict" and isinstance(recv, _Obj) and not args and self.depth < 4:
+            cname = recv.cls.split(".")[-1]
+            for m in self.ctx.repo.modules.values():
+                ci = m.classes.get(cname)
+                if ci and "to_dict" in ci.methods and self.ctx.repo_class_name(m, cname) == recv.cls:
+                    # positional constructor arguments -> field names
+                    fields = []
+                    names = [f[0] for f in ci.fields if "ClassVar" not in f[1]]
+                    for k, v in recv.fields:
+                        if k.startswith("#") and int(k[1:]) < len(names):
+                            k = names[int(k[1:])]
+                        fields.append((k, v))
+                    sub = RepoInterp(self.ctx, m, cname)
+                    sub.depth = self.depth + 1
+                    outs = sub.run_function(ci.methods["to_dict"], {"self": _Obj(recv.cls, tuple(fields), recv.line)})
+                    if len(outs) == 1 and outs[0].kind == "return":
+                        return [(outs[0].value, s)]
         # canonical names for constructed repo classes
         res = super().call(e, fname, recv, args, kws, s)
         out = []
